@@ -295,6 +295,25 @@ func ruleC02_4(c *Ctx, r *Rep) {
 					{"Attributes", []string{"field:Attributes"}, contentForbid("field:Attributes")},
 					{"OrderKey", []string{"field:OrderingKey"}, contentForbid("field:OrderingKey")},
 				})
+				// each message's parameters are written for that message: every content field is stored on every path
+				// to the constructor call (a parameter struct hoisted out of the loop with one field set only under a
+				// condition carries the previous message's value over)
+				for _, ci := range callsIn(f, false, func(cal *ssa.Function, _ ssa.CallInstruction) bool {
+					return fnIs(cal, modPath+"/actions", "NewPublishMessage")
+				}) {
+					for _, fld := range []string{"Payload", "Attributes", "OrderKey"} {
+						okDom := false
+						for _, sto := range st[fld] {
+							if instrDominates(sto, ci) {
+								okDom = true
+							}
+						}
+						if len(st[fld]) == 0 {
+							continue // reported by the dependence check above
+						}
+						r.Check("C02.4", "C02.4:per-message:"+fld+"@Publish", ci.Pos(), okDom, "", "PublishMessageParams."+fld+" is not written on every path to the publish of a message: a message for which the write is skipped is stored with the value of an earlier message of the same request")
+					}
+				}
 			}
 			for _, a := range f.AnonFuncs {
 				walk(a)
